@@ -57,6 +57,14 @@ pub(crate) use std::collections::hash_map::Entry as KEntry;
 #[cfg(kani)]
 pub(crate) use crate::kani_support::kmap::Entry as KEntry;
 #[cfg(not(kani))]
+pub(crate) use std::collections::BTreeMap as KBTreeMap;
+#[cfg(kani)]
+pub(crate) use crate::kani_support::kmap::KBTreeMap;
+#[cfg(not(kani))]
+pub(crate) use std::collections::btree_map::Entry as KBTreeEntry;
+#[cfg(kani)]
+pub(crate) use crate::kani_support::kmap::btree::Entry as KBTreeEntry;
+#[cfg(not(kani))]
 pub(crate) use hashbrown::HashTable as KHashTable;
 #[cfg(kani)]
 pub(crate) use crate::kani_support::kmap::KHashTable;
@@ -90,6 +98,11 @@ def _apply_container_model(ovl):
             p = os.path.join(dirpath, fn)
             t = open(p).read()
             t2 = t.replace("std::collections::hash_map::Entry", "crate::KEntry")
+            if p.endswith(os.path.join("program", "data.rs")):
+                if "use std::collections::BTreeMap;" not in t2 or "std::collections::btree_map::Entry" not in t2:
+                    problems.append("program/data.rs: BTreeMap usage not found")
+                t2 = t2.replace("use std::collections::BTreeMap;", "use crate::KBTreeMap as BTreeMap;")
+                t2 = t2.replace("std::collections::btree_map::Entry", "crate::KBTreeEntry")
             if p.endswith(os.path.join("interner", "inner.rs")):
                 if "hashbrown::HashTable" not in t2 or "hashbrown::hash_table::Entry" not in t2:
                     problems.append("interner/inner.rs: hashbrown::HashTable usage not found")
